@@ -1,6 +1,6 @@
 CONSTANTS
-  Alphabet = {"a", "b"}
-  MaxLen = 3
+  Alphabet = {"a", "b", "c"}
+  MaxLen = 2
   MaxAllow = 2
   MaxMetrics = 2
 INIT Init
